@@ -262,29 +262,33 @@ Proof.
 Qed.
 
 (* ---------- HTTP/2 ---------- *)
-Lemma h2_write_data_transparent {St} ds frame (w : wfn St) s l chunks :
-  (fst (fst (h2_write_data ds frame w (s, l) chunks)), snd (h2_write_data ds frame w (s, l) chunks)) =
-  write_all w s (map frame (filter (fun p => negb (Nat.eqb (length p) 0)) chunks)).
+Lemma h2_write_data_transparent {St} ds frame frame_fin fin_last (w : wfn St) s l chunks :
+  (let '(st, e, ended) := h2_write_data ds frame frame_fin fin_last w (s, l) chunks in (fst st, e, ended)) =
+  h2_write_data_plain frame frame_fin fin_last w s chunks.
 Proof.
-  revert s l. induction chunks as [|p r IH]; intros s l; cbn [h2_write_data filter map write_all].
+  revert s l. induction chunks as [|p r IH]; intros s l; cbn [h2_write_data h2_write_data_plain].
   - reflexivity.
-  - destruct p as [|x p]; cbn [length Nat.eqb negb].
-    + apply IH.
-    + cbn [map write_all]. unfold add_hook. cbn [fst snd].
-      destruct (w s (frame (x :: p))) as [[s' n] e]. destruct e; [reflexivity|]. apply IH.
+  - cbn [fst snd].
+    destruct (w s ((if fin_last && match r with [] => true | _ => false end then frame_fin else frame) p))
+      as [[s' n] e].
+    destruct e; [reflexivity|].
+    destruct (fin_last && match r with [] => true | _ => false end); [reflexivity|]. apply IH.
 Qed.
 
-Lemma h2_send_transparent {St} ds enc frame endstream (w : wfn St) s q :
-  fst (h2_send ds enc frame endstream w s q) = h2_send_plain enc frame endstream w s q.
+Lemma h2_send_transparent {St} ds enc frame frame_fin endstream (w : wfn St) s q :
+  fst (h2_send ds enc frame frame_fin endstream w s q) = h2_send_plain enc frame frame_fin endstream w s q.
 Proof.
   unfold h2_send, h2_send_plain.
   destruct (w s (enc (g_fields q))) as [[s1 n1] e1]. destruct e1; [reflexivity|].
   destruct (g_body q) as [chunks|]; [|reflexivity].
-  pose proof (h2_write_data_transparent ds frame w s1 (h23_header_log ds (g_fields q)) chunks) as H.
-  destruct (h2_write_data ds frame w (s1, h23_header_log ds (g_fields q)) chunks) as [st2 e2].
-  destruct (write_all w s1 _) as [s2 e2']. cbn [fst snd] in H. inversion H; subst.
-  destruct e2'; [reflexivity|].
-  destruct (w (fst st2) endstream) as [[s3 n3] e3]. destruct e3; reflexivity.
+  pose proof (h2_write_data_transparent ds frame frame_fin (g_fin_last q) w s1
+                (h23_header_log ds (g_fields q)) (filter nonempty chunks)) as H.
+  destruct (h2_write_data ds frame frame_fin (g_fin_last q) w (s1, h23_header_log ds (g_fields q))
+              (filter nonempty chunks)) as [[st2 e2] ended].
+  destruct (h2_write_data_plain frame frame_fin (g_fin_last q) w s1 (filter nonempty chunks)) as [[s2 e2'] ended'].
+  inversion H; subst.
+  destruct e2'; [reflexivity|]. destruct ended'; [reflexivity|].
+  destruct (w (fst st2) endstream) as [[s3 n3] e3]. reflexivity.
 Qed.
 
 (* ---------- HTTP/3 (repaired sendRequestBody) ---------- *)
